@@ -378,7 +378,7 @@ var checks = map[string]Check{
 	},
 	"C18": {
 		Level:       "model_checking",
-		Rule:        "(a) all histories up to depth 5 (quick) / 7 over {connect, remote close i, local close i, update limit to 0 (off)/1/2/3} with N in {1,2} against a counter model (admit iff the limit is off or live < limit, where live counts every admitted session that has not ended, rejected closed, CountSession exact); (b) all interleavings (preemption bound) of 3 concurrent connects with one early disconnect: never more than N admitted at once and exactly N admitted afterwards; (c) token bucket: taker threads x attempts against refill ticks delivered to the limiter's own goroutine, all interleavings: admitted <= capacity + refill x ticks + ticks",
+		Rule:        "(a) all histories up to depth 5 (quick) / 7 over {connect, remote close i, local close i, update limit to 0 (off)/1/2/3} with N in {1,2} against a counter model (admit iff the limit is off or live < limit, where live counts every admitted session that has not ended, rejected closed, CountSession exact); (b) all interleavings (preemption bound) of 3 concurrent connects with one early disconnect: never more than N admitted at once and exactly N admitted afterwards; (c) token bucket: taker threads x attempts against refill ticks delivered to the limiter's own goroutine, all interleavings: admitted <= capacity + refill x ticks + ticks; (d) live session: every history of depth 5 (quick) / 7 over {call to an unlimited route, call to a route with a handler limit, push, refill tick}: a call is OK iff its handler ran, a rejected call carries the overload error and is not handled, and every window of the history stays within the bucket bound for the total and the handler limit",
 		Assumptions: baseAssumptions,
 		Jobs: func(tier string) []Job {
 			if tier == "thorough" {
@@ -389,9 +389,13 @@ var checks = map[string]Check{
 				c.Budget = 600
 				d := sched("c18_qps", "takers=2,takes=3,ticks=2", -1, 16)
 				d.Budget = 600
-				return []Job{a, b, c, d}
+				live := sched("c18_live", "depth=7", 0, 8)
+				live.EnvOnly = true
+				return []Job{a, b, c, d, live}
 			}
-			return []Job{sched("c18_hist", "depth=5,off=1", 0, 4), sched("c18_race", "threads=3", 2, 8), sched("c18_qps", "takers=2,takes=3,ticks=2", 2, 2), sched("c18_qps", "takers=1,takes=6,ticks=1", 3, 1)}
+			live := sched("c18_live", "depth=5", 0, 2)
+			live.EnvOnly = true
+			return []Job{live, sched("c18_hist", "depth=5,off=1", 0, 4), sched("c18_race", "threads=3", 2, 8), sched("c18_qps", "takers=2,takes=3,ticks=2", 2, 2), sched("c18_qps", "takers=1,takes=6,ticks=1", 3, 1)}
 		},
 	},
 	"C19": {
